@@ -5,6 +5,7 @@ bid = sys.argv[1]
 files = sys.argv[2:]
 wt = f"/tmp/wt/{bid}"
 prefer = os.environ.get("BEN_FUNCS", "")
+extra = os.environ.get("BEN_EXTRA", "")
 prefer_txt = (f"""
 Prefer these functions/methods (they are the central ones; pick 8 different ones, or two small related ones per refactoring): {prefer}. If one of them was evidently already cleaned up in the way you intended, choose another edit kind.
 """ if prefer else "")
@@ -16,6 +17,7 @@ Your task: produce 8 DIFFERENT behaviour-preserving refactorings ("benign change
 {chr(10).join('  - ' + f for f in files)}
 
 {prefer_txt}
+{extra}
 Each refactoring must leave the observable behaviour of the code exactly unchanged for every input, schedule and failure, and should be the kind of edit a careful maintainer really makes: extract a block into a private helper method/function (or inline one); introduce or remove a temporary variable; rename local variables; replace a loop+append by a comprehension or vice versa; early-return / guard-clause restructuring; invert a condition and swap the branches; reorder statements that are independent of each other; replace `if a: if b:` by `if a and b:`; use an equivalent library call (e.g. `posixpath.split` instead of dirname+basename, `dict.get` instead of a membership test, `any(...)` instead of a loop with a flag); change string formatting style (f-string / format / concatenation) without changing the resulting text; add logging/debug statements, comments, type annotations or docstrings; merge or split `try` blocks without changing which exceptions are handled where; replace a lambda by a named function. Touch the *central* functions of these files (the ones that implement scheduling, locking, token routing, persistence, recovery, command construction, stream copying, ... ) rather than peripheral helpers, make each change non-trivial (5-40 changed lines), and make the 8 changes different in kind and spread over different functions. Do NOT change behaviour in any way: no changed order of observable effects (I/O, awaits that yield control while shared state is inconsistent, lock scope, puts on ports, database writes), no changed exception types/messages, no changed defaults, no renamed public functions/methods/parameters.
 
 For each refactoring i = 1..8:
